@@ -12,7 +12,8 @@ META = {
             "concatenations and const fragments, decorators) rendered fully and minimally parenthesised; each source goes through the real "
             "parser+checker (as cmd/mfmt), the real Unparser, and parser+checker again: the canonical dump of both trees (declaration "
             "attributes, statement structure, expression trees, pattern and string texts) must be identical and a second formatting must "
-            "reproduce the text.",
+            "reproduce the text; the mfmt command itself is built and run on every program: its standard output and the file it rewrites "
+            "with -write must be the Unparser's text.",
     "note": "The canonical dump ignores source positions and checker-inserted conversions only; sampling of an infinite program space.",
     "technique": "TLC-generated programs (typed grammar in TLA+) pushed through real parse -> format -> parse with structural tree comparison",
     "design_ref": "DESIGN.md 5/C23",
